@@ -117,6 +117,19 @@ def fixture(name):
             p = numpy.geomspace(50.0, 9.0e4, 40)
             _FIX[name] = synthetic("Langmuir", {"n_m": 5.2, "K": 1.9e-4}, p, adsorbate="n-butane", temperature=298.15,
                                    pressure_mode="absolute", pressure_unit="Pa")
+        elif name in ("nop0-CO2-35C", "nop0-custom"):
+            # isotherms whose pressure cannot be read as p/p0: supercritical CO2 (Tc = 30.98 degC) / an adsorbate without
+            # thermodynamic backend and without a saturation pressure
+            import pygaps
+            p = numpy.array([0.1, 0.2, 0.5, 1, 2, 3, 5, 7.5, 10, 15, 20, 30, 40, 50.0])
+            if name == "nop0-custom":
+                if not any(a.name == "verif_gas_nop0" for a in pygaps.ADSORBATE_LIST):
+                    pygaps.Adsorbate("verif_gas_nop0", store=True, molar_mass=40.1, cross_sectional_area=0.17)
+                _FIX[name] = synthetic("Langmuir", {"n_m": 4.4, "K": 0.8}, p, adsorbate="verif_gas_nop0", temperature=300.0,
+                                       pressure_mode="absolute", pressure_unit="bar")
+            else:
+                _FIX[name] = synthetic("Langmuir", {"n_m": 6.2, "K": 0.35}, p, adsorbate="carbon dioxide", temperature=308.15,
+                                       pressure_mode="absolute", pressure_unit="bar")
         else:
             raise MachineryError(f"unknown fixture {name}")
     return clone(_FIX[name])
